@@ -14,6 +14,9 @@ package channels
 //     machine's goroutine has exited yet);
 //   - argument count/type mismatches are reported by Send;
 //   - an event without a transition from the current state is logged and dropped;
+//   - an action that returns an error aborts the event (no status change, no notification, no
+//     entry function) but what it already wrote to the state IS persisted (the planner swallows
+//     the error);
 //   - the action runs, then the state key is set unless the destination is
 //     nil (ToNoChange) or recordEvent (ToJustRecord);
 //   - the notifier is called with a copy of the new state;
@@ -310,7 +313,11 @@ func (g *VerifGroup) apply(e *verifEntry, ev *verifEvent, args []interface{}) {
 	}
 	work := cloneState(e.st)
 	if _, err := applyAction(ev.action, work, args, false); err != nil {
-		return // action error: state not saved, event dropped
+		// go-statemachine: Apply reports the action's error, Plan logs it and returns a nil error to
+		// the state store's Mutate, which therefore PERSISTS whatever the action already changed;
+		// the status is not set, nothing is announced and no entry function runs.
+		e.st = work
+		return
 	}
 	skipHandler := zz.TypeName(dest) == "fsm.recordEvent"
 	if !skipHandler && dest != nil {
